@@ -5,15 +5,17 @@
    the learning scenarios of vharness `c08` (exact frequency trajectories over 64 repetitions,
    close + reopen of a file-backed user dictionary, default conversion of the bare syllables).
 
-   PARTIAL for the last clause: "X becomes the DEFAULT conversion" needs the engine's ranking of
-   paths, which the model keeps as an oracle.  Proved: within 64 repetitions X's frequency exceeds
-   every homophone's (all f <= m < 1,000,000), and the phrase with the strictly highest frequency
-   owns the edge that spans the whole range in the conversion graph.  That the one-edge path is
-   then ranked first is decided by the scenario runs (it holds for two-syllable phrases; for
-   longer ones a split into frequent shorter phrases can outscore it - see DESIGN.md). *)
+   The last clause ("X becomes the DEFAULT conversion of those syllables typed alone") is proved on the model
+   of the engine's own path search (Model/Engine.v, tied to ChewingEngine by the exact comparison of every
+   ranked alternative): within 64 repetitions X's frequency exceeds every homophone's (all f <= m < 1,000,000);
+   the phrase with the strictly highest frequency owns the edge that spans the whole buffer; and when that
+   edge exists the engine returns it as its ONLY alternative, for every number of syllables
+   (C08_the_leader_is_the_default_conversion): the breadth-first search meets it first and trim_paths drops
+   every other path, so no split into frequent shorter phrases can outrank it. *)
 From Coq Require Import NArith List Bool Arith.
-From LC Require Import Base.Lib Gen.Editor_gen Model.Composition Model.Conversion Model.Editor Model.EditorRun
-     Proofs.CompositionProofs Proofs.EditorInv Proofs.LearnProofs.
+From Coq Require Import Permutation.
+From LC Require Import Base.Lib Gen.Editor_gen Model.Composition Model.Conversion Model.Engine Model.Editor Model.EditorRun
+     Proofs.CompositionProofs Proofs.EditorInv Proofs.LearnProofs Proofs.EngineProofs Proofs.EngineDefault.
 Import ListNotations.
 
 (* ---- the frequency arithmetic ---- *)
@@ -97,3 +99,32 @@ Print Assumptions C08_the_leader_owns_the_whole_range_edge.
 (* non-vacuity: the worst case of the quantifier is inside the theorem's domain and needs 50 *)
 Example C08_worst_case : (999999 < N.iter 50 (learn_step 999999) 1)%N /\ (N.iter 49 (learn_step 999999) 1 <= 999999)%N.
 Proof. split; vm_compute; [reflexivity | discriminate]. Qed.
+
+(* ---- "X becomes the default conversion of those syllables typed alone" ---- *)
+(* The buffer holds the syllables of X and nothing else (no choice recorded, no break set), X is the strictly
+   most frequent phrase the dictionary holds for them: ChewingEngine::convert (every sort of the candidate
+   paths, every dictionary without an entry for the empty key, any number of syllables >= 1) returns exactly
+   one alternative, the single interval [0, len) carrying X. *)
+Theorem C08_the_leader_is_the_default_conversion :
+  forall (sortu : list path -> list path) (lookup : lookup_fn) (spell : N -> list N) (c : composition) (x : phrase),
+  (forall l, Permutation (sortu l) l) -> lookup [] = [] -> wf_comp c ->
+  1 <= clen c -> selections c = [] -> existsb is_char (symbols c) = false ->
+  (forall k, comp_gap c k <> Some GBreak) ->
+  In x (lookup (symbols c)) -> NoDup (lookup (symbols c)) ->
+  (forall q, In q (lookup (symbols c)) -> q <> x -> (snd q < snd x)%N) ->
+  exists b, chewing_convert_x sortu spell lookup c = Ok ([[mkIv 0 (clen c) true (fst x)]], b).
+Proof. exact leader_is_the_default. Qed.
+Print Assumptions C08_the_leader_is_the_default_conversion.
+
+(* non-vacuity: three syllables; the split 1 + 2 carries far more frequency (300 + 1) than the whole phrase
+   (42), and the whole phrase is still the default - and the only alternative *)
+Definition lk3 : lookup_fn := fun syms => match syms with
+  | [SymSyl 1] => [([100], 1)] | [SymSyl 2] => [([200], 1)] | [SymSyl 3] => [([300], 1); ([301], 5)]
+  | [SymSyl 1; SymSyl 2] => [([101; 201], 200)]
+  | [SymSyl 2; SymSyl 3] => [([202; 302], 300)]
+  | [SymSyl 1; SymSyl 2; SymSyl 3] => [([103; 203; 303], 42); ([104; 204; 304], 41)]
+  | _ => [] end%N.
+Example C08_default_of_three_syllables :
+  chewing_convert sort_by_len (fun _ => []) lk3 (mkComp [SymSyl 1; SymSyl 2; SymSyl 3]%N [GBegin; GNormal; GNormal] [])
+  = Ok [[mkIv 0 3 true [103; 203; 303]%N]].
+Proof. vm_compute. reflexivity. Qed.
